@@ -7,7 +7,7 @@ import time
 import warnings
 
 from harness.common import Ck, coq_bool, coq_list, parse_coq_N_list
-from translate import c01_kvloop, c01_kvser, c02_tables
+from translate import c01_kvaux, c01_kvloop, c01_kvser, c02_tables
 
 MANIFEST = dict(
     technique='Rocq proof (character-level KV lexer proved equal to the reader-program tokenizer model of C03 under the '
@@ -82,6 +82,7 @@ IMPORTS = ['Coq.Lists.List', 'Coq.NArith.NArith', 'Coq.Bool.Bool', 'SV.KV.KvBase
 IMPORTS_LOOP = ['Coq.Lists.List', 'Coq.NArith.NArith', 'Coq.Bool.Bool', 'SV.KV.KvBase', 'SV.KV.KvLex', 'SV.KV.KvParse',
                 'SV.KV.KvLoop', 'SV.KV.KvLoopRef', 'SV.KV.KvLoopEquiv', 'SV.KV.KvLoopRoundtrip', 'SV.KV.KvEnum', 'SV.KV.KvLoopEnum',
                 'SV.Gen.KVSer_gen', 'SV.Gen.KVLoop_gen']
+IMPORTS_AUX = ['SV.KV.KvWriter', 'SV.KV.KvFlagProg', 'SV.KV.KvWProg', 'SV.Gen.KVAux_gen']
 IMPORTS_REFINE = ['Coq.Lists.List', 'Coq.NArith.NArith', 'Coq.Bool.Bool', 'SV.Text.Str', 'SV.Text.Prog', 'SV.Text.Tokenizer',
                   'SV.Text.TokGen', 'SV.KV.KvBase', 'SV.KV.KvLex', 'SV.KV.KvParse', 'SV.KV.KvRefine', 'SV.Gen.KVSer_gen']
 PRE = '''Import ListNotations. Open Scope N_scope.
@@ -311,7 +312,7 @@ def eval_jobs(ck: Ck, jobs: list) -> list:
     if not jobs:
         return []
     with ThreadPoolExecutor(max_workers=min(8, len(jobs))) as ex:
-        futs = [ex.submit(ck.coq_eval, IMPORTS, exprs if isinstance(exprs, list) else [exprs], f'{name}_{k}', 900, PRE)
+        futs = [ex.submit(ck.coq_eval, IMPORTS + IMPORTS_AUX, exprs if isinstance(exprs, list) else [exprs], f'{name}_{k}', 900, PRE)
                 for k, (name, exprs) in enumerate(jobs)]
         return [f.result() for f in futs]
 
@@ -583,19 +584,34 @@ def corr_read_flag(ck: Ck, shape_recognised: bool):
             f'(([{"; ".join(f"({coq_chars(k)}, {coq_bool(bool(v))})" for k, v in cases[i][0].items())}], '
             f'[{"; ".join(f"({coq_chars(a)}, {coq_chars(b)})" for a, b in cases[i][1].items())}]), '
             f'({coq_chars(cases[i][2])}, {coq_bool(cases[i][3])}))' for i in part)
-        jobs.append(('read_flag', f'bad_idx (fun c : (list (str * bool) * list (str * str)) * (str * bool) => '
-                                  f'Bool.eqb (read_flag (cf_tbl (snd (fst c))) (fst (fst c)) {run_defaults()} (fst (snd c))) '
-                                  f'(snd (snd c))) 0 {lit}'))
+        # the hand model read_flag, and the decision tree regenerated from the source of _read_flag under eval_ftree
+        jobs.append(('read_flag', [
+            f'bad_idx (fun c : (list (str * bool) * list (str * str)) * (str * bool) => '
+            f'Bool.eqb (read_flag (cf_tbl (snd (fst c))) (fst (fst c)) {run_defaults()} (fst (snd c))) '
+            f'(snd (snd c))) 0 {lit}',
+            f'bad_idx (fun c : (list (str * bool) * list (str * str)) * (str * bool) => '
+            f'match eval_ftree (cf_tbl (snd (fst c))) (fst (fst c)) {run_defaults()} (fst (snd c)) gen_flagprog with '
+            f'Some b => Bool.eqb b (snd (snd c)) | None => false end) 0 {lit}']))
         parts.append(part)
 
     def finish(results) -> None:
         bad: list[int] = []
+        gbad: list[int] = []
         for part, vals in zip(parts, results):
             if vals is None:
                 ck.obligation('correspondence:read_flag', False, 'model could not be evaluated')
                 ck.tie_broken.append('correspondence read_flag: model evaluation failed')
                 return
             bad.extend(part[i] for i in parse_coq_N_list(vals[0]))
+            gbad.extend(part[i] for i in parse_coq_N_list(vals[1]))
+        ck.obligation('correspondence:read_flag-regenerated-program', not gbad,
+                      f'{len(cases)} (mapping, flag text) pairs, gen_flagprog under eval_ftree (vm_compute) vs _read_flag: '
+                      f'{len(gbad)} disagreements')
+        if gbad:
+            m, cf, t, want = min((cases[i] for i in gbad), key=lambda c: (len(c[2]), len(c[0])))
+            ck.tie_broken.append('correspondence read_flag-regenerated-program (Gen/KVAux_gen.v gen_flagprog vs _read_flag)')
+            ck.extra['read_flag_program_disagreement'] = {'flags': {k: repr(v) for k, v in m.items()}, 'flag_text': t,
+                                                          'impl': want, 'n': len(gbad)}
         ck.obligation('correspondence:read_flag', not bad,
                       f'{len(cases)} (mapping, flag text) pairs, KV/KvFlags.v read_flag (vm_compute) vs _read_flag: '
                       f'{len(bad)} disagreements' + ('' if shape_recognised else
@@ -1315,8 +1331,11 @@ def run(ck: Ck) -> None:
     ok_esc = ck.translate('EscTables_gen', c02_tables.translate)
     # the token loop of Keyvalues.parse as a decision tree (symbolic execution of the loop body, path by path)
     ok_t = ck.translate('KVLoop_gen', c01_kvloop.translate) and ok_t
+    # the glue around the anchored functions: the execution paths of the wrapper serialise(), _read_flag as a decision tree,
+    # _serialise as a program of write / child-loop / store instructions
+    ok_t = ck.translate('KVAux_gen', c01_kvaux.translate) and ok_t
     # KV/KvEnum.vo is used by the correspondences only (no theorem depends on it): name it explicitly
-    built = ok_t and ck.build(['Gen/KVSer_gen.vo', 'Gen/KVLoop_gen.vo'] + (['Gen/EscTables_gen.vo', 'Text/TokGen.vo'] if ok_esc else [])
+    built = ok_t and ck.build(['Gen/KVSer_gen.vo', 'Gen/KVLoop_gen.vo', 'Gen/KVAux_gen.vo'] + (['Gen/EscTables_gen.vo', 'Text/TokGen.vo'] if ok_esc else [])
                               + ['KV/KvEnum.vo', 'KV/KvLoopEnum.vo', 'Props/C01.vo'])
     if built:
         # Print Assumptions of the 37 theorems takes a single coqc process 15-20 s on a loaded machine: it runs beside the
@@ -1331,7 +1350,7 @@ def run(ck: Ck) -> None:
         noraw = '(fun t => forallb (fun p => match p with PRaw _ | POther => false | _ => true end) t)'
         is_push = '(fun s => match s with SOpenLast | SOpenDummy => true | _ => false end)'
         is_pop = '(fun s => match s with SPop => true | _ => false end)'
-        inst = ck.instance_obligations(IMPORTS + [i for i in IMPORTS_LOOP if i not in IMPORTS], {
+        inst = ck.instance_obligations(IMPORTS + [i for i in IMPORTS_LOOP if i not in IMPORTS] + IMPORTS_AUX, {
             'escape_table_covers_quote': 'esc_quote_ok gen_escfg',
             'escape_table_covers_backslash': 'esc_backslash_ok gen_escfg',
             'escape_table_covers_CR': 'esc_cr_ok gen_escfg',
@@ -1361,6 +1380,17 @@ def run(ck: Ck) -> None:
             'export_child_prefix_is_whitespace': 'xprefix_ok gen_expcfg',
             'root_test_of_export_is_identity_with_None': 'xroot_test_ok gen_expcfg',
             'xcfg_ok(premise of kv_export_roundtrip)': 'xcfg_ok gen_expcfg',
+            # the wrapper serialise() as its execution paths (Gen/KVAux_gen.v gen_serpaths)
+            'serialise_hands_the_writes_of__serialise_to_the_destination_unprocessed_and_returns_them': 'delivery_direct gen_serpaths',
+            'serialise_has_a_path_for_every_way_of_calling(file_or_not,indent_braces)': 'delivery_total gen_serpaths',
+            'delivery_ok(premise of serialise_delivery)': 'delivery_ok gen_serpaths',
+            # _read_flag as a decision tree (gen_flagprog)
+            'read_flag_with_bang_is_the_negated_lookup_of_the_casefolded_rest': 'flagprog_bang_ok gen_flagprog',
+            'read_flag_without_bang_is_the_lookup_of_the_casefolded_text': 'flagprog_plain_ok gen_flagprog',
+            'flagprog_ok(premise of read_flag_program_is_model)': 'flagprog_ok gen_flagprog',
+            # _serialise as an instruction program (gen_wprog)
+            'writer_program_has_no_store_or_mutating_instruction': 'wprog_pure gen_wprog',
+            'writer_program_writes_are_the_templates_of_the_writer_model': 'wprog_text_ok gen_sercfg gen_wprog',
             'no_store_to_tree_in_writers': 'Nat.eqb (length gen_tree_stores) 0',
             'no_mutating_call_on_tree_in_writers': 'Nat.eqb (length gen_tree_mut_calls) 0',
             # the token loop of parse as a regenerated decision tree (Gen/KVLoop_gen.v) against the reference tree
@@ -1382,11 +1412,15 @@ def run(ck: Ck) -> None:
                 f'tree_agrees_upto gen_ptree gen_pfinal gen_parsecfg {ck.budget(3, 4)}',
         })
         if ok_esc:
-          inst.update(ck.instance_obligations(IMPORTS_REFINE, {
+          inst.update(ck.instance_obligations(IMPORTS_REFINE + ['SV.KV.KvSym', 'SV.KV.KvLoop', 'SV.KV.KvLoopRoundtrip', 'SV.Gen.KVLoop_gen'] + IMPORTS_AUX, {
             'tokenizer_model_escape_table_equals_kv_lexer_table': 'esc_tables_match gen_tables gen_escfg',
             'tokenizer_model_BARE_DISALLOWED_equals_kv_lexer_set': 'bare_tables_match gen_tables',
             'tokenizer_model_operators_are_brace_open_close_equals_comma': 'ops_match (Str.operators gen_tables)',
             'tables_match(premise of parse_any_delivery)': 'tables_match gen_tables gen_escfg',
+            'all_nine_hypotheses_of_c01_property_hold_of_the_regenerated_objects':
+                'cfg_ok gen_sercfg && esc_ok gen_escfg && pcfg_ok gen_parsecfg && loop_ok gen_ptree gen_pfinal gen_parsecfg && '
+                'tables_match gen_tables gen_escfg && delivery_ok gen_serpaths && flagprog_ok gen_flagprog && '
+                'wprog_pure gen_wprog && wprog_text_ok gen_sercfg gen_wprog',
           }, name='inst_refine'))
         if not all(inst.values()):
             ck.tie_broken.append('instance obligations over Gen/KVSer_gen.v / Gen/KVLoop_gen.v: ' + ', '.join(k for k, v in inst.items() if not v))
@@ -1429,16 +1463,23 @@ def run(ck: Ck) -> None:
         for pre in ('instance:block_head_lexes', 'instance:block_tail_lexes', 'instance:leaf_lexes',
                     'instance:child_indent', 'instance:root_child_indent', 'instance:cfg_ok_and_esc_ok',
                     'instance:escape_table', 'instance:every_escape_written', 'instance:escape_fast_path',
-                    'instance:root_test_of_serialise',
+                    'instance:root_test_of_serialise', 'instance:serialise_hands_the_writes', 'instance:serialise_has_a_path',
+                    'instance:delivery_ok', 'instance:all_nine_hypotheses', 'instance:writer_program_writes_are',
                     'instance:parse_newline_key_test', 'instance:parse_newline_value_test',
                     'instance:parse_loop_', 'instance:parse_checks_after', 'instance:parse_emptiness', 'instance:loop_ok'):
             ck.explain(pre)
     if any(k.startswith('export-roundtrip') for k in keys):
         for pre in ('instance:export_', 'instance:root_test_of_export', 'instance:xcfg_ok'):
             ck.explain(pre)
+    if 'serialise-to-file-differs' in keys:
+        for pre in ('instance:serialise_hands_the_writes', 'instance:serialise_has_a_path', 'instance:delivery_ok',
+                    'instance:all_nine_hypotheses'):
+            ck.explain(pre)
     if 'serialise-mutates-tree' in keys or 'export-mutates-tree' in keys:
         ck.explain('instance:no_store_to_tree')
         ck.explain('instance:no_mutating_call')
+        ck.explain('instance:writer_program_has_no_store')
+        ck.explain('instance:all_nine_hypotheses')
 
 
 def replay(data: dict) -> int:
